@@ -245,6 +245,15 @@ class Interp:
             return self.binop("Div", v[1], self.size_of(v[2]))
         if k == "call" and v[1] in ("identity",):
             return self.length_of(v[2][0])
+        if k == "index" and isinstance(v[2], tuple) and v[2] and v[2][0] == "adt" and isinstance(v[2][1], str):
+            f = dict(v[2][3])
+            if v[2][1].endswith("::RangeTo"):
+                return f.get(0)
+            if v[2][1].endswith("::Range"):
+                lo, hi = f.get(0), f.get(1)
+                return hi if lo == C(0) else self.binop("Sub", hi, lo)
+            if v[2][1].endswith("::RangeFull"):
+                return self.length_of(v[1])
         return ("len", v)
 
     # ------------------------------------------------------------------ env / places
@@ -1008,6 +1017,11 @@ class Interp:
                 return self.length_of(base), ("elem", base)
             if itv[0] == "call" and itv[1] in ("identity",):
                 return self.iter_info(itv[2][0])
+            if itv[0] in ("index", "rawslice", "vec", "bytes", "unsized"):
+                # a slice-like value iterated directly (`for x in &mut v[..n]`)
+                n = self.length_of(itv)
+                if not (isinstance(n, tuple) and n and n[0] == "len" and n[1] == itv):
+                    return n, ("elem", itv)
         return None, ("item", itv)
 
     def run_loop(self, frame, s, itv, pat, body, e):
@@ -1314,6 +1328,11 @@ class Interp:
                 return [(s, a)]
             x, y = sorted([a, b], key=repr)
             return [(s, ("call", name, (x, y), None))]
+        if krate == "core" and name == "clamp" and len(args) == 3:
+            x, lo, hi = (self.load_ref(s, a) for a in args)
+            if is_c(x) and is_c(lo) and is_c(hi):
+                return [(s, C(min(max(x[1], lo[1]), hi[1])))]
+            return [(s, ("call", "clamp", (x, lo, hi), None))]
         if krate == "core" and name == "wrapping_neg" and len(args) == 1:
             a = self.load_ref(s, args[0])
             if is_c(a):
